@@ -321,8 +321,9 @@ def run(c):
              [{"op": "emfile_burst", "clients": 3, "hold_ms": 200, "tag": "emf"}, {"op": "sleep", "ms": 200}] + probe("emfile")
     eev, _, _ = rig.run_rig({"steps": esteps, "drain_ms": 200}, "c13_emfile", timeout=300)
     eb = next((e for e in eev if e["e"] == "EmfileBurst"), {})
-    if not eb.get("filled") or eb.get("connected", 0) < 3:
+    if not eb.get("filled"):
         raise util.ToolError("descriptor-exhaustion scenario did not set up: %s" % eb)
+    # (a client that cannot even connect any more -- the listening socket is gone -- counts as not answered)
     epan = [{"location": e["location"], "message": e["message"][:160]} for e in eev if e["e"] == "Panic"]
     eresp = [e for e in eev if e["e"] == "Response" and str(e.get("id", "")).startswith("emf_r")]
     epr = next((e for e in eev if e["e"] == "Response" and e["id"] == "probeemfile" and e["status"] == 200), None)
